@@ -45,7 +45,7 @@ def run(tier, seed, budget, prop='C22'):
     rep.assumptions = dw.STANDINS + ['schedules are free-running (OS scheduler + seeded delays), not enumerated']
     rep.required = {'executions': 60, 'rollovers_applied': 300, 'delivered': 1000, 'executions:fully-armed': 25, 'executions:fully-armed-with-rollover': 8, 'executions:multi-node': 20}
     binary = dw.build()
-    tasks = [{'binary': binary, 'seed': seed, 'idx': i} for i in range(120 if q else 3000)]
+    tasks = [{'binary': binary, 'seed': seed, 'idx': i} for i in range(240 if q else 3000)]
     for t, res in pmap(task, tasks, jobs=12, budget_s=budget):
         if isinstance(res, Exception):
             rep.add_inconclusive(repr(res)); continue
